@@ -814,3 +814,136 @@ def do_vwrite_valid(env, st, i):
     else:
         vals = [rr.randint(1, 20) for _ in pix]
     return do_vwrite(env, dict(op='vwrite', h=h, field=st['field'], pixels=pix, values=vals), i)
+
+
+# ---------------------------------------------------------------- generic growth (two-phase histories)
+def _unit_value(m, meta):
+    """a valid value for the map's type"""
+    if meta.kind == 'wide':
+        v = np.zeros((1, meta.width), dtype=np.uint8)
+        v[0, 0] = 1
+        return v, [1, 1]
+    if meta.kind == 'rec':
+        r = np.zeros(1, dtype=m.dtype)
+        toks = []
+        for j, f in enumerate(meta.fields):
+            x = 3 if j != meta.prim else (3 if frac(m._sentinel) != 3 else 4)
+            r[f] = x
+            toks += qtok(r[f][0])
+        return r, toks
+    if meta.kind == 'packed' or m.dtype == np.bool_:
+        return np.array([True]), [1, 1]
+    x = 3 if meta.sent != 3 else 4
+    v = np.array([x], dtype=m.dtype)
+    return v, qtok(v[0])
+
+
+@step('grow')
+def do_grow(env, st, i):
+    """write one valid value into a pixel of an uncovered coverage pixel (coverage growth) or, if
+    everything is covered, into pixel st['alt']"""
+    h = st['h']
+    m = env.maps[h]
+    meta = env.meta[h]
+    cm = m.coverage_mask
+    unc = np.where(~cm)[0]
+    if unc.size > 0:
+        c = int(unc[st.get('which', 0) % unc.size])
+        p = c * meta.nfine + (st.get('off', 0) % meta.nfine)
+    else:
+        p = st.get('alt', 0) % meta.npix
+    v, toks = _unit_value(m, meta)
+    _, err = run_api(i, 'update (growth)', lambda: m.update_values_pix(np.array([p], dtype=np.int64), v))
+    if err:
+        return fail(i, 'growth of a map handed out by the API failed: ' + err)
+    return [([[2], [h], [0, 0], [p], toks], expect_ok(i, 'grow'))]
+
+
+@step('covpixmap')
+def do_covpixmap(env, st, i):
+    h, out = st['h'], st['out']
+    m = env.maps[h]
+    cm = m.coverage_mask
+    cov = np.where(cm)[0]
+    c = int(cov[st.get('which', 0) % cov.size]) if cov.size and not st.get('uncovered') else int(np.where(~cm)[0][0]) if (~cm).any() else 0
+    res, err = run_api(i, 'get_single_covpix_map', lambda: m.get_single_covpix_map(c))
+    if err:
+        return fail(i, err)
+    env.put(out, res)
+    # (a bit-packed source gives an ordinary boolean sub-map: the storage kind of sub-maps is not part
+    # of any property; resolution, dtype and sentinel are)
+    pairs = meta_check(i, 'get_single_covpix_map',
+                       (res.nside_coverage, res.nside_sparse, np.dtype(res.dtype).name if res.dtype.fields is None else 'rec',
+                        Meta(res).sent, res.primary, res.wide_mask_maxbits),
+                       (m.nside_coverage, m.nside_sparse, np.dtype(m.dtype).name if m.dtype.fields is None else 'rec',
+                        Meta(m).sent, m.primary, m.wide_mask_maxbits))
+    pairs.append(([[13], [h], [out], [c]], expect_ok(i, 'covpixmap')))
+    return pairs
+
+
+@step('fracdet')
+def do_fracdet(env, st, i):
+    """fracdet_map as a produced map: values checked by the 'fracdet' observer; here it only becomes a
+    live handle for non-interference tests (no model state: observed with implementation-internal checks)"""
+    h, out = st['h'], st['out']
+    m = env.maps[h]
+    res, err = run_api(i, 'fracdet_map', lambda: m.fracdet_map(st['nside']))
+    if err:
+        return fail(i, err)
+    env.side = getattr(env, 'side', {})
+    env.side[out] = res
+    return []
+
+
+@step('setmeta')
+def do_setmeta(env, st, i):
+    env.maps[st['h']].metadata = dict(st['metadata'])
+    return []
+
+
+@step('metamut')
+def do_metamut(env, st, i):
+    """mutate the metadata dict of map h in place; the metadata of the maps in 'others' must not change"""
+    m = env.maps[st['h']]
+    others = [env.maps[o] for o in st['others']]
+    before = [None if o.metadata is None else dict(o.metadata) for o in others]
+    if m.metadata is None:
+        return []
+    m.metadata['ZZMUT'] = 1
+    after = [None if o.metadata is None else dict(o.metadata) for o in others]
+    if before != after:
+        return fail(i, 'changing the metadata of a derived map changed the metadata of its source')
+    del m.metadata['ZZMUT']
+    return []
+
+
+@step('snapshot')
+def do_snapshot(env, st, i):
+    """remember the full observable content of map h (values, valid set, coverage, sentinel, dtype)"""
+    h = st['h']
+    m = env.maps[h]
+    meta = env.meta[h]
+    allpix = np.arange(meta.npix, dtype=np.int64)
+    env.snaps = getattr(env, 'snaps', {})
+    env.snaps[st['name']] = (meta.cells(m.get_values_pix(allpix)), sorted(int(p) for p in m.valid_pixels),
+                             [int(b) for b in m.coverage_mask], describe(m), int(m.n_valid))
+    return []
+
+
+@step('unchanged')
+def do_unchanged(env, st, i):
+    h = st['h']
+    m = env.maps[h]
+    meta = env.meta[h]
+    allpix = np.arange(meta.npix, dtype=np.int64)
+    try:
+        now = (meta.cells(m.get_values_pix(allpix)), sorted(int(p) for p in m.valid_pixels),
+               [int(b) for b in m.coverage_mask], describe(m), int(m.n_valid))
+    except Exception as e:  # noqa
+        return fail(i, '%s: re-reading a map raised %s: %s' % (st.get('what', 'unchanged'), type(e).__name__, e))
+    was = env.snaps[st['name']]
+    names = ['values', 'valid pixels', 'coverage mask', 'parameters', 'n_valid']
+    bad = [n for n, a, b in zip(names, was, now) if a != b]
+    if bad:
+        return fail(i, '%s: %s changed' % (st.get('what', 'a map that must be unchanged was disturbed'), ', '.join(bad)))
+    return []
